@@ -149,8 +149,17 @@ def mutate(p, rng):
         if rng.random() < 0.3:
             imp["name"] = rng.choice(["lib", "", "a/b", ".."])
         if rng.random() < 0.3:
-            imp["dldir"] = rng.choice(["../../x", "", "a/b", "..", "/abs"])
-        files["vendor/lib/" + rng.choice(["laze-lib.yml", "laze.yml", "other.yml"])] = [{"modules": [{"name": "implib", "sources": ["implib.c"]}]}]
+            imp["dldir"] = rng.choice(["../../x", "", "a/b", "..", "/abs", "/", "//", "."])
+        lib = {"modules": [{"name": "implib", "sources": ["implib.c"]}]}
+        if rng.random() < 0.4:
+            # the imported file includes a file OUTSIDE its import root that defines a module without a name (named after its
+            # directory relative to the import root)
+            lib["includes"] = [rng.choice(["../outside.yml", "../../outside.yml", "@ROOT@/outside.yml", "@ROOT@/vendor/outside.yml"])]
+            files["vendor/outside.yml"] = [{"modules": [{"sources": ["o.c"]}]}]
+            files["outside.yml"] = [{"modules": [{"sources": ["o.c"]}]}]
+        files["vendor/lib/" + rng.choice(["laze-lib.yml", "laze-lib.yml", "laze.yml", "other.yml"])] = [lib]
+        if rng.random() < 0.5:
+            imp["path"] = "vendor/lib"
         root["imports"] = list(root.get("imports") or []) + [imp]
     elif kind == "defaults-ctxlist":
         files["laze-project.yml"][0]["defaults"] = {rng.choice(["module", "app"]): {"context": rng.choice([["default", "c1"], [], ["default"], ["nosuch"], [""]])}}
@@ -268,6 +277,22 @@ def run(chk):
         chk.disagreements_checked += 1
         for obs, what in projrun.compare(r, m, OBS)[:1]:
             chk.fail_disagree(f"{obs}: {what} (mutation {p.get('_mutation')})", {"project": p})
+    # a known finding, reproduced on every run: a dependency chain deeper than the main-thread stack allows
+    n_chain = 30000
+    mods = [{"name": f"m{i}", "depends": [f"m{i + 1}"]} for i in range(n_chain)] + [{"name": f"m{n_chain}"}]
+    deep = {"files": {"laze-project.yml": [{"contexts": [{"name": "default", "env": {"bindir": "${build-dir}/out/${builder}/${app}"},
+                                                            "rules": [{"name": "CC", "in": "c", "out": "o", "cmd": "cc -c ${in} -o ${out}"},
+                                                                      {"name": "LINK", "in": "o", "cmd": "ld ${in} -o ${out}"}]}],
+                                              "builders": [{"name": "b", "parent": "default"}], "modules": mods,
+                                              "apps": [{"name": "a", "sources": ["a.c"], "depends": ["m0"]}]}]}, "args": {}}
+    rdeep = projrun.run_impl(deep)
+    chk.evaluations += 1
+    stdeep = projrun.impl_status(rdeep)
+    chk.count("deep-chain:" + stdeep)
+    if stdeep not in ("ok", "error", "usage"):
+        chk.fail_oracle("crash:stack-overflow:deep-dependency-chain" if "overflowed its stack" in (rdeep["stderr"] or "") else f"crash:deep-chain:{stdeep}",
+                        f"a dependency chain of {n_chain} modules: laze dies with {stdeep}: {(rdeep['stderr'] or '')[-120:]!r}",
+                        {"generate": "deep_chain", "n": n_chain})
     # sequences of command lines in one build directory, on the projects that were accepted
     okp = [p for p, r, m in results if projrun.impl_status(r) == "ok"][: (120 if chk.tier == "quick" else 2000)]
     for p, k, res in common.parallel_map(seq_worker, [(p, i) for i, p in enumerate(okp)]):
